@@ -137,7 +137,11 @@ def eval_monad_format(a, backend):
                     $:foo  -->  ":foo"
 
     """
-    return f":{a}" if isinstance(a, KGSym) else backend.vec_fn(a, lambda x: eval_monad_format(x, backend)) if is_list(a) else str(a)
+    if isinstance(a, KGSym):
+        return f":{a}"
+    if is_list(a):
+        return a if is_empty(a) else backend.rec_fn(a, lambda x: eval_monad_format(x, backend))
+    return str(a)
 
 
 def eval_monad_grade_up(a, backend):
